@@ -136,6 +136,7 @@ type world struct {
 	imp2Ver          int
 	attached         bool // the content of index.d2 on disk (after the save in progress) imports b.d2
 	navBoard         int  // board the browser tab navigated to last (0 = root)
+	navUncertain     atomic.Bool
 	navsDone         atomic.Bool
 	wantCheckpoint   atomic.Bool
 	stored           []uint64 // hash of every result the compile loop stored, in order
@@ -706,6 +707,13 @@ func (w *world) navigator(n int) {
 				io.Copy(io.Discard, resp.Body)
 				resp.Body.Close()
 				ok = resp.StatusCode == 200
+			} else {
+				// No answer within the tab's two minutes (the simulator kept the handler
+				// from the CPU or from a mutex): the handler may still run, after handlers
+				// of later navigations - requests on different connections are not
+				// ordered. Which board the server ends up rendering is open from here on.
+				w.navUncertain.Store(true)
+				w.probe("navigation_left_unanswered_board_no_longer_checked")
 			}
 		}
 		conn.Close()
@@ -1464,6 +1472,15 @@ func (w *world) settle() {
 	sim.Quiesce()
 }
 
+// same compares what a result shows with what it should show; the board is left out once a
+// navigation went unanswered (see navigator).
+func (w *world) same(got, want vers) bool {
+	if w.navUncertain.Load() {
+		got.Board, want.Board = 0, 0
+	}
+	return got == want
+}
+
 func (w *world) checkC44() {
 	res := w.res
 	want := w.want()
@@ -1482,7 +1499,7 @@ func (w *world) checkC44() {
 		res.Fail("C44", "O44.2", "no compile finished although the watcher ran for %v of simulated time", w.sim.Now())
 		return
 	}
-	if lastCompile.vers() != want {
+	if !w.same(lastCompile.vers(), want) {
 		res.Fail("C44", "O44.2", "input stopped changing at %v; 60 simulated seconds later the last compile had used %v", want, lastCompile.vers())
 		return
 	}
@@ -1545,7 +1562,7 @@ func (w *world) checkC44() {
 			return
 		}
 		last := c.frames[len(c.frames)-1]
-		if got := (vers{last.Main, last.Imp, last.Imp2, last.Board}); got != want {
+		if got := (vers{last.Main, last.Imp, last.Imp2, last.Board}); !w.same(got, want) {
 			res.Fail("C44", "O44.2", "%s is connected and reading; input stopped changing at %v, but 60 simulated seconds later the last result it received is %v (err=%q; frames: %s)", c.name, want, got, last.Err, frameList(c.frames))
 			return
 		}
